@@ -233,6 +233,9 @@ func planLaws(prop string) {
 	if prop == "C04" {
 		l2Cycles(r, prop)
 	}
+	if prop == "C02" {
+		c02Endpoint(r)
+	}
 	if prop == "C01" || prop == "C02" || prop == "C03" || prop == "C04" {
 		l3.Histories(r, prop)
 	}
